@@ -488,6 +488,18 @@ def post_getitem(ctx, call):
     if k == 0 or type(self).__name__ not in ELEMENT:
         return
     idx = index if isinstance(index, tuple) else (index,)
+    basic = all((isinstance(i, (int, np.integer)) and not isinstance(i, bool)) or isinstance(i, slice) for i in idx)
+    if basic and len(idx) <= k and (len(idx) < k or any(isinstance(i, slice) for i in idx)) and call.exc is None and not hasattr(self, "pdim"):
+        # a part of a collection (fewer integers than collection axes, slices over collection axes) is a collection of the same class
+        res = call.result
+        want = np.asarray(self.array)[index]
+        ok = type(res) is type(self) and np.array_equal(np.asarray(res.array), want) and res.tensor_shape == self.tensor_shape \
+            and getattr(res, "is_dual", None) == getattr(self, "is_dual", None)
+        ctx.judge("getitem.element", bool(ok), [self, repr(index)], op="__getitem__ (part of a collection)", nontrivial=True,
+                  what=f"{type(self).__name__}[{index!r}] is a {type(res).__name__} (is_dual {getattr(res, 'is_dual', None)}, tensor_shape {getattr(res, 'tensor_shape', None)}); expected a "
+                       f"{type(self).__name__} with is_dual {getattr(self, 'is_dual', None)} holding array[index]",
+                  feat={"cls": type(self).__name__, "op": "getitem.part", "coll_axes": k, "polytope": False})
+        return
     if len(idx) != k or not all(isinstance(i, (int, np.integer)) and not isinstance(i, bool) for i in idx):
         return
     idx = tuple(int(i) for i in idx)
@@ -520,6 +532,22 @@ def g_indexing(ctx, rng, i):
                 obj[tuple(p - n for p, n in zip(pos, cs))] if len(pos) > 1 else obj[pos[0] - cs[0]]
             except Exception:
                 pass
+        # parts of the collection: one integer of several axes, slices
+        if not hasattr(obj, "pdim"):
+            for ix in ([0, slice(0, 2), slice(None, None, -1), (slice(None), 0) if k > 1 else slice(1, None), (0, slice(None)) if k > 1 else slice(None)]):
+                try:
+                    obj[ix]
+                except Exception:
+                    pass
+            if k > 1:
+                try:
+                    for sub_ in obj:
+                        w = np.asarray(sub_.array) if _is_tensor(sub_) else None
+                        ctx.judge("iter.element", type(sub_) is type(obj) and getattr(sub_, "is_dual", None) == getattr(obj, "is_dual", None), [obj], op="__iter__ (several axes)",
+                                  what=f"iterating a {type(obj).__name__} with {k} collection axes yields {type(sub_).__name__} objects", nontrivial=True,
+                                  feat={"cls": type(obj).__name__, "op": "iter.part", "polytope": False})
+                except Exception:
+                    pass
         if k == 1:
             try:
                 items = list(obj)
